@@ -181,6 +181,9 @@ func IsErrorConstructor(p *Program, fn *types.Func) bool {
 		return false
 	}
 	rt := sig.Results().At(0).Type()
+	if isErrorType(rt) {
+		return alwaysFails(p, fn)
+	}
 	pt, ok := rt.(*types.Pointer)
 	if !ok {
 		return false
@@ -191,6 +194,45 @@ func IsErrorConstructor(p *Program, fn *types.Func) bool {
 		return false
 	}
 	return neverReturnsNilPtr(p, fn, 0)
+}
+
+var alwaysFailsMemo = map[*types.Func]int{}
+
+// alwaysFails: a module function with a single error result all of whose
+// returns are certainly non-nil errors.
+func alwaysFails(p *Program, fn *types.Func) bool {
+	switch alwaysFailsMemo[fn] {
+	case 1:
+		return true
+	case 2, 3:
+		return false // 3 = in progress (recursion): be conservative
+	}
+	alwaysFailsMemo[fn] = 3
+	fd := p.DeclOf(fn)
+	res := false
+	if fd != nil {
+		ff := NewFuncFlow(fd)
+		res = true
+		n := 0
+		for _, r := range ff.Flow.Returns() {
+			if !ff.Flow.Reachable(r) {
+				continue
+			}
+			n++
+			if k, _ := ff.ClassifyReturn(p, r); k != RetFailure {
+				res = false
+			}
+		}
+		if n == 0 {
+			res = false
+		}
+	}
+	if res {
+		alwaysFailsMemo[fn] = 1
+	} else {
+		alwaysFailsMemo[fn] = 2
+	}
+	return res
 }
 
 func neverReturnsNilPtr(p *Program, fn *types.Func, depth int) bool {
